@@ -8,7 +8,7 @@ cd /verif
 one() {
   d=$1; id=$(basename $d); pid=${id%%_*}
   w=/tmp/sweep_$id; rm -rf $w; mkdir -p $w; cp -r /repo/sigpyproc /repo/sigpyproc.egg-info /repo/tests $w/ 2>/dev/null
-  if ! (cd $w && patch -p1 -s --no-backup-if-mismatch < $d/patch.diff > $w/patch.log 2>&1); then
+  if ! (cd $w && patch -p1 -s --no-backup-if-mismatch < /verif/$d/patch.diff > $w/patch.log 2>&1); then
     echo "$id does-not-apply-to-current-tree"; rm -rf $w; return
   fi
   out=/tmp/sweepout_$id; mkdir -p $out
